@@ -1069,4 +1069,261 @@ theorem good_ifInitElseStmt (F : FloatOps) (B B1 : List String) (pos bp : Pos) (
         rw [sm_bind_run h0]
         exact sm_pure_run _ _ _
 
+/-! ### `if false { … }`: a JUMP over the body that is not compiled -/
+
+theorem isFalseLit_inv {c : Expr} (h : isFalseLit c = true) : ∃ p, c = .bool p false := by
+  cases c with
+  | bool p b =>
+    cases b with
+    | false => exact ⟨p, rfl⟩
+    | true => simp [isFalseLit] at h
+  | _ => simp [isFalseLit] at h
+
+theorem good_ifFalse (F : FloatOps) (B : List String) (pos : Pos) :
+    GoodB F B 0 (do
+        let j ← Compile.emit pos Compile.OpJump [0]
+        Compile.changeOperand j [(← Compile.curPos)])
+      (fun _ env => pure (.normal, env)) := by
+  intro cs cs' hc hcov hok
+  obtain ⟨j1, cs2, hj1, hc⟩ := bind_inv hc
+  obtain ⟨x1, cs3, hx1, hc⟩ := bind_inv hc
+  obtain ⟨rfl, rfl⟩ := curPos_inv hx1
+  have she1 := Shape.of_emit hj1
+  have hok2 := hok.of_shape she1
+  obtain ⟨bsj1, hbsj1, hjp1, e2⟩ := emit_inv hj1
+  obtain ⟨_, c1, c2, c3, c4, rfl, _⟩ := mk_w4 Compile.OpJump rfl _ _ hbsj1
+  obtain ⟨opb1, bs1, hopb1, hbs1, e5⟩ := changeOperand_inv hc
+  have hsz2 : cs3.insts.size = cs.insts.size + 5 := by rw [e2]; simp
+  have hop1 : cs3.insts[cs.insts.size]? = some (UInt8.ofNat Compile.OpJump) := by
+    rw [e2]; exact emit_bytes (cs := cs) _ 0 (by simp)
+  have hopb1' : opb1 = UInt8.ofNat Compile.OpJump := by
+    rw [hjp1, hop1] at hopb1
+    injection hopb1 with h; exact h.symm
+  rw [hopb1'] at hbs1
+  obtain ⟨_, b1, b2, b3, b4, rfl, hdec1⟩ := mk_w4 Compile.OpJump rfl _ _ hbs1
+  simp only [Int.toNat_natCast] at hdec1
+  have hsz' : cs'.insts.size = cs3.insts.size := by rw [e5]; exact Compile.size_patch _ _ _
+  have hins' : cs'.insts = Compile.patch cs3.insts cs.insts.size [UInt8.ofNat Compile.OpJump, b1, b2, b3, b4] := by
+    rw [e5, hjp1]
+  have hse : StEff cs cs' := by
+    rw [e5]; exact (StEff.of_shape she1 hok.ne).patch _ _ (by rw [hjp1]; exact Nat.le_refl _)
+  have ht' : cs'.tables = cs3.tables := by rw [e5]
+  have ht2 : cs3.tables = cs.tables := by rw [she1.eq]
+  have htl : Tl cs.tables cs'.tables := by rw [ht', ht2]; exact Tl.refl _
+  have hok' : CsOK cs' := hok2.of_tables ht' (by rw [e5])
+  refine ⟨hse, hok', htl, ?_⟩
+  intro fuel K code bp L env binds s t ss ss' cc env' t' hK hcode hvm hip hsp hL hst hdy hsem
+  dsimp only at hsem
+  obtain ⟨hce, rfl, rfl⟩ := sm_pure_inv hsem
+  simp only [Prod.mk.injEq] at hce
+  obtain ⟨rfl, rfl⟩ := hce
+  have hcj1 : ∀ k (hk : k < 5), code.insts[cs.insts.size + k]? =
+      [UInt8.ofNat Compile.OpJump, b1, b2, b3, b4][k]? := by
+    intro k hk
+    rw [hcode _ (by omega) (by omega), hins']
+    exact Compile.patch_get_mid _ _ _ _ (by simpa using hk) (by simp; omega)
+  obtain ⟨s4, hrun4, hs4, hh4, hip4, hsp4, hst4⟩ := step_jump F hvm.code cs.insts.size hip _ b1 b2 b3 b4
+    (by simpa using hcj1 0 (by omega)) rfl
+    (by simpa using hcj1 1 (by omega)) (by simpa using hcj1 2 (by omega))
+    (by simpa using hcj1 3 (by omega)) (by simpa using hcj1 4 (by omega))
+  have hf : Frm s s4 bp L := ⟨hs4, hh4, by rw [hst4], fun j _ _ => by rw [hst4]⟩
+  have hni' : nextIndex cs'.tables = nextIndex cs.tables := htl.nextIndex
+  have hl' : localIdx cs' = localIdx cs := localIdx_of_tl htl
+  refine ⟨rfl, binds, s4, Reach.step hvm.abort hrun4, hf, by rw [hdec1] at hip4; rw [hsz']; exact hip4, hsp4,
+    fun _ h => h, ?_, ?_⟩
+  · rw [hl', hni']; exact hst
+  · exact ⟨fun i a hm => by
+      obtain ⟨h0, v, hv1, hv2, hv3⟩ := hdy.cell i a hm
+      exact ⟨by rw [hh4]; exact h0, v, hv1, by rw [hst4]; exact hv2, hv3⟩, hdy.rel.of_eq hh4⟩
+
+set_option maxHeartbeats 1600000 in
+theorem good_ifFalseElse (F : FloatOps) (B : List String) (pos : Pos) (nE : Nat) (actE : Compile.CM Unit)
+    (semE : Nat → Sem.Env → Sem.SM (Sem.Comp × Sem.Env)) (hE : GoodB F B nE actE semE) :
+    GoodB F B nE (do
+        let j ← Compile.emit pos Compile.OpJump [0]
+        let j2 ← Compile.emit pos Compile.OpJump [0]
+        Compile.changeOperand j [(← Compile.curPos)]
+        actE
+        Compile.changeOperand j2 [(← Compile.curPos)]) semE := by
+  intro cs cs' hc hcov hok
+  obtain ⟨j1, cs2, hj1, hc⟩ := bind_inv hc
+  obtain ⟨j2, cs3', hj2, hc⟩ := bind_inv hc
+  obtain ⟨x1, cs3, hx1, hc⟩ := bind_inv hc
+  obtain ⟨rfl, rfl⟩ := curPos_inv hx1
+  obtain ⟨_, cs4, hp1, hc⟩ := bind_inv hc
+  obtain ⟨_, cs5', hcf, hc⟩ := bind_inv hc
+  obtain ⟨x2, cs5, hx2, hc⟩ := bind_inv hc
+  obtain ⟨rfl, rfl⟩ := curPos_inv hx2
+  have she1 := Shape.of_emit hj1
+  have she2 := Shape.of_emit hj2
+  have hok2 := hok.of_shape she1
+  have hok3 := hok2.of_shape she2
+  obtain ⟨bsj1, hbsj1, hjp1, e2⟩ := emit_inv hj1
+  obtain ⟨bsj2, hbsj2, hjp2, e3⟩ := emit_inv hj2
+  obtain ⟨_, c1, c2, c3, c4, rfl, _⟩ := mk_w4 Compile.OpJump rfl _ _ hbsj1
+  obtain ⟨_, d1, d2, d3, d4, rfl, _⟩ := mk_w4 Compile.OpJump rfl _ _ hbsj2
+  obtain ⟨opb1, bs1, hopb1, hbs1, e4⟩ := changeOperand_inv hp1
+  have hsz2 : cs2.insts.size = cs.insts.size + 5 := by rw [e2]; simp
+  have hsz3 : cs3.insts.size = cs2.insts.size + 5 := by rw [e3]; simp
+  have hop1 : cs2.insts[cs.insts.size]? = some (UInt8.ofNat Compile.OpJump) := by
+    rw [e2]; exact emit_bytes (cs := cs) _ 0 (by simp)
+  have hop13 : cs3.insts[cs.insts.size]? = some (UInt8.ofNat Compile.OpJump) := getElem?_of_pre she2.pre hop1
+  have hopb1' : opb1 = UInt8.ofNat Compile.OpJump := by
+    rw [hjp1, hop13] at hopb1
+    injection hopb1 with h; exact h.symm
+  rw [hopb1'] at hbs1
+  obtain ⟨_, b1, b2, b3, b4, rfl, hdec1⟩ := mk_w4 Compile.OpJump rfl _ _ hbs1
+  simp only [Int.toNat_natCast] at hdec1
+  have hsz4 : cs4.insts.size = cs3.insts.size := by rw [e4]; exact Compile.size_patch _ _ _
+  have hins4 : cs4.insts = Compile.patch cs3.insts cs.insts.size [UInt8.ofNat Compile.OpJump, b1, b2, b3, b4] := by
+    rw [e4, hjp1]
+  have ht4 : cs4.tables = cs3.tables := by rw [e4]
+  have ht3 : cs3.tables = cs2.tables := by rw [she2.eq]
+  have ht2 : cs2.tables = cs.tables := by rw [she1.eq]
+  have hok4 : CsOK cs4 := hok3.of_tables ht4 (by rw [e4])
+  have hl4 : localIdx cs4 = localIdx cs := by
+    have : localIdx cs4 = localIdx cs3 := by rw [e4]; rfl
+    rw [this, she2.localIdx, she1.localIdx]
+  obtain ⟨seE, hok5, htlE, simE⟩ := hE cs4 cs5 hcf (by rw [hl4]; exact hcov) hok4
+  obtain ⟨opb2, bs2, hopb2, hbs2, e6⟩ := changeOperand_inv hc
+  have hle45 : cs4.insts.size ≤ cs5.insts.size := seE.pre.1
+  have hop2 : cs3.insts[cs2.insts.size]? = some (UInt8.ofNat Compile.OpJump) := by
+    rw [e3]; exact emit_bytes (cs := cs2) _ 0 (by simp)
+  have h4 : cs4.insts[cs2.insts.size]? = some (UInt8.ofNat Compile.OpJump) := by
+    rw [hins4, Compile.patch_get_ge _ _ _ _ (by simp; omega)]; exact hop2
+  have hop5 : cs5.insts[cs2.insts.size]? = some (UInt8.ofNat Compile.OpJump) := getElem?_of_pre seE.pre h4
+  have hopb2' : opb2 = UInt8.ofNat Compile.OpJump := by
+    rw [hjp2, hop5] at hopb2
+    injection hopb2 with h; exact h.symm
+  rw [hopb2'] at hbs2
+  obtain ⟨_, e1, e2', e3', e4', rfl, hdec2⟩ := mk_w4 Compile.OpJump rfl _ _ hbs2
+  have hsz' : cs'.insts.size = cs5.insts.size := by rw [e6]; exact Compile.size_patch _ _ _
+  have hins' : cs'.insts = Compile.patch cs5.insts cs2.insts.size [UInt8.ofNat Compile.OpJump, e1, e2', e3', e4'] := by
+    rw [e6, hjp2]
+  have se3 : StEff cs cs3 := (StEff.of_shape she1 hok.ne).trans (StEff.of_shape she2 hok2.ne)
+  have se4 : StEff cs cs4 := by rw [e4]; exact se3.patch _ _ (by rw [hjp1]; exact Nat.le_refl _)
+  have se5 : StEff cs cs5 := se4.trans seE
+  have hse : StEff cs cs' := by rw [e6]; exact se5.patch _ _ (by rw [hjp2]; omega)
+  have ht' : cs'.tables = cs5.tables := by rw [e6]
+  have htl : Tl cs.tables cs'.tables := by
+    rw [ht', ← ht2, ← ht3, ← ht4]; exact htlE
+  have hok' : CsOK cs' := hok5.of_tables ht' (by rw [e6])
+  refine ⟨hse, hok', htl, ?_⟩
+  intro fuel K code bp L env binds s t ss ss' cc env' t' hK hcode hvm hip hsp hL hst hdy hsem
+  try dsimp only at hsem
+  have hN := nextIndex_le_of hok hse hL
+  have hK5 : IsPre cs5.constants K := by
+    have : cs'.constants = cs5.constants := by rw [e6]
+    rw [← this]; exact hK
+  have hcj1 : ∀ k (hk : k < 5), code.insts[cs.insts.size + k]? =
+      [UInt8.ofNat Compile.OpJump, b1, b2, b3, b4][k]? := by
+    intro k hk
+    rw [hcode _ (by omega) (by omega), hins', Compile.patch_get_lt _ _ _ _ (by omega), seE.pre.2 _ (by omega), hins4]
+    exact Compile.patch_get_mid _ _ _ _ (by simpa using hk) (by simp; omega)
+  have hcf' : CodeHas code cs5.insts cs4.insts.size := by
+    intro i h1 h2
+    rw [hcode i (by omega) (by omega), hins', Compile.patch_get_ge _ _ _ _ (by simp; omega)]
+  obtain ⟨s4, hrun4, hs4, hh4, hip4, hsp4, hst4⟩ := step_jump F hvm.code cs.insts.size hip _ b1 b2 b3 b4
+    (by simpa using hcj1 0 (by omega)) rfl
+    (by simpa using hcj1 1 (by omega)) (by simpa using hcj1 2 (by omega))
+    (by simpa using hcj1 3 (by omega)) (by simpa using hcj1 4 (by omega))
+  rw [hdec1] at hip4
+  have hf : Frm s s4 bp L := ⟨hs4, hh4, by rw [hst4], fun j _ _ => by rw [hst4]⟩
+  have hvm4 := hvm.of_frm hf hsp4
+  have hdy4 : Dyn binds t s4 bp := ⟨fun i a hm => by
+      obtain ⟨h0, v, hv1, hv2, hv3⟩ := hdy.cell i a hm
+      exact ⟨by rw [hh4]; exact h0, v, hv1, by rw [hst4]; exact hv2, hv3⟩, hdy.rel.of_eq hh4⟩
+  have hni4 : nextIndex cs4.tables = nextIndex cs.tables := by rw [ht4, ht3, ht2]
+  obtain ⟨rfl, oe⟩ := simE fuel K code bp L env binds s4 t ss ss' cc env' t' hK5 hcf' hvm4 (by omega) (by omega)
+    (by rw [← ht']; exact hL) (by rw [hl4, hni4]; exact hst) hdy4 hsem
+  refine ⟨rfl, OutS.via (Reach.step hvm.abort hrun4) hf (by omega) (fun _ h => h) ?_⟩
+  have hni' : nextIndex cs'.tables = nextIndex cs.tables := htl.nextIndex
+  have hl' : localIdx cs' = localIdx cs := localIdx_of_tl htl
+  rw [hsz', hl', hni']
+  have hl5 : localIdx cs5 = localIdx cs := by rw [localIdx_of_tl htlE, hl4]
+  have hni5 : nextIndex cs5.tables = nextIndex cs.tables := by rw [htlE.nextIndex, hni4]
+  rw [hl5, hni5] at oe
+  exact oe
+
+theorem good_ifFalseStmt (F : FloatOps) (B : List String) (pos bp p : Pos) (body : List Stmt) :
+    GoodB F B 0 (compileStmt (.if_ pos none (.bool p false) bp body none))
+      (fun fuel env => Sem.execStmt F fuel env (.if_ pos none (.bool p false) bp body none)) := by
+  rw [Compile.compileStmt_eq]
+  simp only
+  refine good_withBlock F B B _ _ (fun _ env => pure (.normal, env)) _ (good_ifFalse F B pos).toC.pure_bind ?_
+  intro fuel env ss t c' env' ss' t' hsem
+  cases fuel with
+  | zero => exact (execStmt_zero' hsem).elim
+  | succ fuel =>
+    rw [execStmt_if] at hsem
+    obtain ⟨⟨c0, env1⟩, ss0, t0, h0, hsem⟩ := sm_bind_inv hsem
+    obtain ⟨hce, rfl, rfl⟩ := sm_pure_inv h0
+    simp only [Prod.mk.injEq] at hce
+    obtain ⟨rfl, rfl⟩ := hce
+    simp only at hsem
+    obtain ⟨rc, ss1, t1, hev, hsem⟩ := sm_bind_inv hsem
+    cases fuel with
+    | zero =>
+      have h0 : Sem.evalExpr F 0 ([] :: env) (.bool p false) = Sem.liftM (unsupported "sem: fuel") := rfl
+      rw [h0] at hev; exact (sm_unsupported_ne hev).elim
+    | succ f =>
+      have h1 : Sem.evalExpr F (f + 1) ([] :: env) (.bool p false) = pure (.val (.bool false)) := rfl
+      rw [h1] at hev
+      obtain ⟨hrc, rfl, rfl⟩ := sm_pure_inv hev
+      subst hrc
+      simp only at hsem
+      obtain ⟨fl, ss2, t2, hfl, hsem⟩ := sm_bind_inv hsem
+      obtain ⟨rfl, hfl'⟩ := sm_liftM_inv hfl
+      have hf : ∀ w : State, exec (isFalsy (.bool false)) w = (.ok true, w) := fun _ => rfl
+      rw [hf] at hfl'
+      simp only [Prod.mk.injEq, Except.ok.injEq] at hfl'
+      obtain ⟨rfl, rfl⟩ := hfl'
+      simp only [Bool.not_true, Bool.false_eq_true, if_false] at hsem
+      obtain ⟨hce, rfl, rfl⟩ := sm_pure_inv hsem
+      simp only [Prod.mk.injEq] at hce
+      obtain ⟨rfl, rfl⟩ := hce
+      exact ⟨rfl, 0, [] :: env, sm_pure_run _ _ _⟩
+
+theorem good_ifFalseElseStmt (F : FloatOps) (B : List String) (pos bp p : Pos) (body : List Stmt) (e : Stmt) (nE : Nat)
+    (hE : GoodB F B nE (compileStmt e) (fun fuel env => Sem.execStmt F fuel env e)) :
+    GoodB F B nE (compileStmt (.if_ pos none (.bool p false) bp body (some e)))
+      (fun fuel env => Sem.execStmt F fuel env (.if_ pos none (.bool p false) bp body (some e))) := by
+  rw [Compile.compileStmt_eq]
+  simp only
+  refine good_withBlock F B B _ _ (fun fuel env => Sem.execStmt F fuel env e) _
+    (good_ifFalseElse F B pos nE _ _ hE).toC.pure_bind ?_
+  intro fuel env ss t c' env' ss' t' hsem
+  cases fuel with
+  | zero => exact (execStmt_zero' hsem).elim
+  | succ fuel =>
+    rw [execStmt_if] at hsem
+    obtain ⟨⟨c0, env1⟩, ss0, t0, h0, hsem⟩ := sm_bind_inv hsem
+    obtain ⟨hce, rfl, rfl⟩ := sm_pure_inv h0
+    simp only [Prod.mk.injEq] at hce
+    obtain ⟨rfl, rfl⟩ := hce
+    simp only at hsem
+    obtain ⟨rc, ss1, t1, hev, hsem⟩ := sm_bind_inv hsem
+    cases fuel with
+    | zero =>
+      have h0 : Sem.evalExpr F 0 ([] :: env) (.bool p false) = Sem.liftM (unsupported "sem: fuel") := rfl
+      rw [h0] at hev; exact (sm_unsupported_ne hev).elim
+    | succ f =>
+      have h1 : Sem.evalExpr F (f + 1) ([] :: env) (.bool p false) = pure (.val (.bool false)) := rfl
+      rw [h1] at hev
+      obtain ⟨hrc, rfl, rfl⟩ := sm_pure_inv hev
+      subst hrc
+      simp only at hsem
+      obtain ⟨fl, ss2, t2, hfl, hsem⟩ := sm_bind_inv hsem
+      obtain ⟨rfl, hfl'⟩ := sm_liftM_inv hfl
+      have hf : ∀ w : State, exec (isFalsy (.bool false)) w = (.ok true, w) := fun _ => rfl
+      rw [hf] at hfl'
+      simp only [Prod.mk.injEq, Except.ok.injEq] at hfl'
+      obtain ⟨rfl, rfl⟩ := hfl'
+      simp only [Bool.not_true, Bool.false_eq_true, if_false] at hsem
+      obtain ⟨⟨c1, envX⟩, ss3, t3, hb, hsem⟩ := sm_bind_inv hsem
+      obtain ⟨hce, rfl, rfl⟩ := sm_pure_inv hsem
+      simp only [Prod.mk.injEq] at hce
+      obtain ⟨rfl, rfl⟩ := hce
+      exact ⟨rfl, f + 1, envX, hb⟩
+
 end UgoVerif.CompSim
